@@ -10,7 +10,7 @@ def check_c19(tier, seed, replay):
     t0 = time.time()
     with chk.Lock():
         tr = chk.step_extract()
-        lean = chk.step_lean("C19")
+        lean = chk.step_lean("C19", recheck=(tier == "thorough"))
         hok, hlog = chk.step_harness(["release"], features=("rayon",))
     problems = []
     broken = [t for t, st in lean["theorems"].items() if st != "ok"]
